@@ -16,7 +16,7 @@ EXPLANATION = (
     "history line was copied into the buffer; the splitter slices at find(';') offsets. R5 (DOM): Up/Down step history.index only under "
     "a guard on it (or clamp it), and reset the cursor only under such a guard - a history key that does not change the focused entry leaves "
     "the cursor alone, as a plain editor does."
-    ' R1 also checks byte-index sinks (String::insert/remove/...: the position must be a boundary-safe byte offset). R4 also: update_next returns only with the draft focused (copy and focus reset on every path). R8: clearing the edit buffer is followed by cursor := 0 on every path to the return.'
+    ' R1 also checks byte-index sinks (String::insert/remove/...: the position must be a boundary-safe byte offset). R4 also: update_next returns only with the draft focused (copy and focus reset on every path). R8: clearing the edit buffer is followed by cursor := 0 on every path to the return. R2 also: the count a step is guarded by is that of the line on show - get_current(), or the buffer once update_next dominates -, not of the hidden draft. R9: no function of the editor narrows a `char` to u8/u16 (`ch as u8`) outside an is_ascii test of that character.'
 )
 NOT_DECIDED = "equality with a reference editor for all key sequences; that helper results are <= the character count (value-level)"
 
@@ -103,14 +103,35 @@ def run(ctx):
     ctx.rule("C20.R2", "cursor steps are guarded", floor=4)
     from ..panics import Ledger
     L0 = Ledger(ctx, [HK])
-    def is_count(x):
-        """the number of characters of the line: chars().count(), directly or through a named temporary"""
-        if "count(" in expr_str(x, 200):
-            return True
+    # the edit buffer by role: the String field handed to the character-index helpers
+    bufs = set()
+    for bb_, t_, c_ in hk.calls():
+        if c_ in (T + "insert_char_index", T + "remove_char_index"):
+            fs_ = [y[2] for y in expr_walk(hk.expr(t_["args"][0], 6, stop={"named"})) if y[0] == "field"]
+            bufs |= set(fs_[-1:])
+    un_blocks = [b2 for b2, t2, c2 in hk.calls() if c2 == T + "Terminal::update_next"]
+
+    def is_count(x, at=None):
+        """the number of characters of the line on show: chars().count() of get_current() - or of the edit buffer once update_next
+        has made the buffer the line on show -, directly or through a named temporary"""
         y = x
         while y[0] in ("ref", "deref", "cast"):
             y = y[3] if y[0] == "cast" else y[1]
-        return y[0] == "local" and "count(" in expr_str(hk.local_expr(y[1], 8), 300)
+        if "count(" not in expr_str(x, 200):
+            if not (y[0] == "local" and "count(" in expr_str(hk.local_expr(y[1], 8), 300)):
+                return False
+            x = hk.local_expr(y[1], 10)
+        for c_ in expr_walk(x):
+            if c_[0] == "call" and str(c_[1]).endswith("::count") and len(c_[2]) == 1:
+                calls_ = [str(z[1]) for z in expr_walk(c_[2][0]) if z[0] == "call"]
+                if T + "Terminal::get_current" in calls_:
+                    return True
+                fs_ = [z[2] for z in expr_walk(c_[2][0]) if z[0] == "field"]
+                if fs_ and fs_[-1] in bufs:
+                    # the hidden draft: only the line on show after update_next
+                    return at is not None and any(hk.dominates(ub, at) for ub in un_blocks)
+                return False
+        return False
 
     def at_least_one(cons):
         for c, v in cons:
@@ -119,8 +140,8 @@ def run(ctx):
                     return True
         return False
 
-    def below_count(cons, op):
-        return any(c[0] == "bin" and c[1] == op and v != 0 and cur in expr_str(c[2]) and is_count(c[3]) for c, v in cons)
+    def below_count(cons, op, at=None):
+        return any(c[0] == "bin" and c[1] == op and v != 0 and cur in expr_str(c[2]) and is_count(c[3], at) for c, v in cons)
 
     for b, i, s in hk.assigns():
         fl = fields_of(s["p"])
@@ -134,7 +155,7 @@ def run(ctx):
                 ok = at_least_one(cons)
                 why = "dominated by cursor > 0"
             else:
-                lt = below_count(cons, "Lt")
+                lt = below_count(cons, "Lt", b)
                 ins = any(c == T + "insert_char_index" and hk.dominates(bb, b) and cur in expr_str(hk.expr(t["args"][1], 6, stop={"named"}))
                           for bb, t, c in hk.calls())
                 ok = lt or ins
@@ -143,14 +164,14 @@ def run(ctx):
             if not ok:
                 ctx.violation("unguarded-step|%s" % e[1], sp_file_line(s.get("sp")),
                               "the cursor is %s without the guard that keeps it inside the line (%s)"
-                              % ("decremented" if e[1] == "Sub" else "incremented", "cursor > 0" if e[1] == "Sub" else "cursor < chars().count(), or an insertion just before"))
+                              % ("decremented" if e[1] == "Sub" else "incremented", "cursor > 0" if e[1] == "Sub" else "cursor < chars().count() of the line on show - get_current(), or the buffer after update_next -, or an insertion just before"))
     # removal is guarded: remove_char_index calls are dominated by cursor < count (Delete) or by cursor > 0 && cursor <= count (Backspace, after the decrement)
     for bb, t, c in hk.calls():
         if c == T + "remove_char_index":
             ctx.instance(1)
             cons = L0._dom_constraints(hk, bb, stable=False)
-            lt = below_count(cons, "Lt")
-            le = below_count(cons, "Le")
+            lt = below_count(cons, "Lt", bb)
+            le = below_count(cons, "Le", bb)
             dec = any(fields_of(s["p"])[-1:] == [cur] and hk.dominates(b2, bb) and hk.rvalue_expr(s["r"], 6, stop={"named"})[1:2] == ("Sub",)
                       for b2, i2, s in hk.assigns())
             ok = lt or (le and dec)
@@ -331,3 +352,29 @@ def run(ctx):
                                   "pressing Up at the oldest entry jumps the cursor to the end of the line, and the next edit lands there")
     ctx.finish_rule()
 
+
+    # ------------------------------------------------------------------ R9
+    # a typed character is judged and stored as a `char`: narrowing it to a byte (`ch as u8`) keeps only the low bits of the code point, so a
+    # multi-byte character is then taken for whatever ASCII character shares them (U+1F600 for NUL, U+2014 for DC4) - unless the narrowing sits
+    # under an is_ascii test of that character
+    ctx.rule("C20.R9", "characters are not narrowed to bytes in the line editor", floor=1)
+    ncast = 0
+    for n, f in sorted(prog.fns.items()):
+        if not n.startswith(T):
+            continue
+        ctx.instance(1)
+        for b, i, s in f.assigns():
+            r = s["r"]
+            if r["k"] == "cast" and r.get("from") == "char" and r.get("ty") in ("u8", "i8", "u16", "i16"):
+                ncast += 1
+                src = f.expr(r["a"], 4, stop={"named"})
+                guarded = False
+                for c, v in L0._dom_constraints(f, b):
+                    if v not in (0, ("not", [1])) and c[0] == "call" and re.search(r"char::methods::<impl char>::is_ascii\w*$", str(c[1])) and any(kit.strip_refs(a) == kit.strip_refs(src) for a in c[2]):
+                        guarded = True
+                ctx.oblig(guarded, {"narrowing of a char in": short(n), "at": sp_file_line(s.get("sp"))}, "under is_ascii of the same character")
+                if not guarded:
+                    ctx.violation("char-narrowed|%s|%s" % (short(n), r.get("ty")), sp_file_line(s.get("sp")),
+                                  "`%s` narrows a typed character to %s (`%s as %s`) without an is_ascii test: only the low bits of the code point survive, so a "
+                                  "multi-byte character is taken for an unrelated ASCII one" % (short(n), r.get("ty"), expr_str(src, 40), r.get("ty")))
+    ctx.finish_rule()
